@@ -89,14 +89,19 @@ theorem storeBlock_ok (env : Env L) (s s' : Node L) (b : Block)
     · cases h
 
 /-- the header step leaves everything but the header list alone; it either fails without a trace,
-or records exactly this header (verified unless SkipBlockVerification), or finds it already recorded. -/
+or records exactly this header (verified unless SkipBlockVerification), or finds it already
+recorded with the same hash and (unless SkipBlockVerification) the same witness or a witness that
+verifies against the header named as previous. -/
 theorem headerStep_spec (env : Env L) (s s1 : Node L) (b : Block) (r : Option Err)
     (hne : s.headers ≠ []) (h : headerStep env s b = (s1, r)) :
     (∃ e, r = some e ∧ s1 = s) ∨
     (r = none ∧ b.hdr.index = s.headerHeight + 1 ∧ s1 = { s with headers := s.headers ++ [b.hdr] } ∧
       (s.cfg.skip = false → ∃ last, s.lookup b.hdr.prevHash = some last ∧ verifyHeader env s b.hdr last = none)) ∨
     (r = none ∧ b.hdr.index ≠ s.headerHeight + 1 ∧ s1 = s ∧
-      ∃ kh, s.headers[b.hdr.index]? = some kh ∧ kh.hash = b.hdr.hash) := by
+      ∃ kh, s.headers[b.hdr.index]? = some kh ∧ kh.hash = b.hdr.hash ∧
+        (s.cfg.skip = true ∨ kh.wit = b.hdr.wit ∨
+          ∃ prev, s.lookup b.hdr.prevHash = some prev ∧
+            env.signedBy b.hdr.wit b.hdr.hash prev.nextConsensus = true)) := by
   unfold headerStep at h
   split at h
   · rename_i hi
@@ -114,14 +119,30 @@ theorem headerStep_spec (env : Env L) (s s1 : Node L) (b : Block) (r : Option Er
   · rename_i hi
     have hi' : b.hdr.index ≠ s.headerHeight + 1 := by simpa using hi
     split at h
+    · cases h; left; exact ⟨_, rfl, rfl⟩
     · rename_i kh hk
       split at h
-      · rename_i hh
-        cases h
-        right; right
-        exact ⟨rfl, hi', rfl, kh, hk, by simpa using hh⟩
       · cases h; left; exact ⟨_, rfl, rfl⟩
-    · cases h; left; exact ⟨_, rfl, rfl⟩
+      · rename_i hh
+        have hh' : kh.hash = b.hdr.hash := by simpa using hh
+        split at h
+        · rename_i hw
+          cases h
+          right; right
+          refine ⟨rfl, hi', rfl, kh, hk, hh', ?_⟩
+          simp at hw
+          rcases hw with hw | hw
+          · exact Or.inl hw
+          · exact Or.inr (Or.inl hw)
+        · split at h
+          · cases h; left; exact ⟨_, rfl, rfl⟩
+          · rename_i prev hp
+            split at h
+            · rename_i hsg
+              cases h
+              right; right
+              exact ⟨rfl, hi', rfl, kh, hk, hh', Or.inr (Or.inr ⟨prev, hp, hsg⟩)⟩
+            · cases h; left; exact ⟨_, rfl, rfl⟩
 
 theorem bodyStep_err (env : Env L) (s s' : Node L) (b : Block) (e : Err)
     (h : bodyStep env s b = (s', some e)) : s' = s := by
@@ -130,7 +151,9 @@ theorem bodyStep_err (env : Env L) (s s' : Node L) (b : Block) (e : Err)
   · cases h; rfl
   · split at h
     · cases h; rfl
-    · exact (storeBlock_err env s s' b e h).1
+    · split at h
+      · cases h; rfl
+      · exact (storeBlock_err env s s' b e h).1
 
 /-- headers are stored under their index -/
 def Indexed (hs : List Header) : Prop := ∀ (i : Nat) (h : Header), hs[i]? = some h → h.index = i
